@@ -8,14 +8,14 @@
     adjoint_sound_gen           induction on the expression with the incoming adjoint generalised: for every
                                 node `e` and admissible message `a`, the accumulated adjoint of leaf `id` =
                                 derivative of ⨁ a ⊗ e.  All node kinds: sound_acc, sound_subs (Scatter
-                                transpose), sound_cat, sound_add, sound_mul, sound_sum, sound_prod
+                                transpose), sound_cat, sound_scat (forward Scatter), sound_add, sound_mul, sound_sum, sound_prod
     adjoint_sound               the corollary for a root with incoming adjoint 1 (= C11 at model level)
     agg_step / agg_ok           the tape's message aggregation is exactly the partial sum the proof needs
     catBack_occurrences, catDeriv_sum, sound_cat_occ
                                 `adjoint_cat` and the derivative of a `Cat` both decompose over the *list*
                                 of occurrences of the leaf among the parts (multiplicity counts)
     plate_zero_witness, plate_zero_not_good, add_broadcast_prefix_witness, subs_free_root_var_witness,
-    cat_repeated_part_witness, cat_ragged_witness
+    cat_repeated_part_witness, cat_ragged_witness, scatter_source_witness
                                 concrete inputs: the hypotheses `Good` places on ⊗-reductions and on ⊕
                                 cannot be dropped; a dict keyed by the part would lose occurrences
     examples                    `Good` (incl. `SubsOK`, `Cat`), `PtOK`, `WFL`, the division hypothesis are
@@ -320,7 +320,9 @@ structure WFL (n : Nat) (L : Leaves R) : Prop where
         (funsor's renaming convention sums those inside Scatter),
       * `Cat(v, parts)` over plain leaves that all have the axis `v` (their other axes may differ: a part
         is broadcast over the inputs only other parts have, and since /repo a13826d `adjoint_cat` expands
-        its message over them), with lengths adding up to at most the size of `v`. -/
+        its message over them), with lengths adding up to at most the size of `v`,
+      * a forward `Scatter` of a source along one of its variables `k` to a fresh destination variable
+        `i` (neither an input of the root) through an index map with values in range. -/
 def SubsOK (n : Nat) (F : Mask) (id : Nat) (σ : Subst) : Prop :=
   (∀ q, q ∈ σ → nameMask L id q.1 = true) ∧ (σ.map (·.1)).Nodup ∧
   (∀ k, σ.valvars k = true → k < n) ∧
@@ -336,6 +338,9 @@ def Good (n : Nat) (F : Mask) : Expr → Prop
   | .cat v parts =>
       (∀ q, q ∈ parts → nameMask L q.1 v = true) ∧
       (parts.map (·.2)).sum ≤ sz v
+  | .scat i k t e =>
+      Good n F e ∧ fvMask L e k = true ∧ fvMask L e i = false ∧ F i = false ∧ F k = false ∧ i ≠ k ∧
+      i < n ∧ ∀ j, j < sz k → tabAt t j < sz i
 
 theorem substEnv_nil (env : Env) : substEnv [] env = env := by
   funext k; simp [substEnv]
@@ -496,6 +501,12 @@ theorem fv_lt {n : Nat} {F : Mask} (hW : WFL n L) :
     simp only [fvMask, List.any_eq_true] at hk
     obtain ⟨q, _, hq⟩ := hk
     exact hW.hn q.1 k hq
+  | scat i k t e ih =>
+    intro hg j hj
+    simp only [fvMask, Bool.or_eq_true, Bool.and_eq_true, beq_iff_eq] at hj
+    rcases hj with h | h
+    · exact ih hg.1 j h.1
+    · rw [h]; exact hg.2.2.2.2.2.2.1
 
 theorem catEval_indep {n : Nat} (hW : WFL n L) (v k : Nat) (hkv : k ≠ v) :
     ∀ (parts : List (Nat × Nat)) (off : Nat), (∀ q, q ∈ parts → nameMask L q.1 k = false) →
@@ -596,6 +607,19 @@ theorem eval_indep {n : Nat} {F : Mask} (hW : WFL n L) :
     cases parts with
     | nil => rfl
     | cons q rest => exact catEval_indep dv L hW v k (hne (by simp)) _ 0 hall env j
+  | scat i k' t e ih =>
+    intro hg k hk env j
+    simp only [fvMask, Bool.or_eq_false_iff, beq_eq_false_iff_ne] at hk
+    simp only [eval, sumTo_eq]
+    apply sum_congr rfl; intro x _
+    rw [upd_ne env j (Ne.symm hk.2)]
+    by_cases hkk : k = k'
+    · subst hkk; rw [upd_same]
+    · have : fvMask L e k = false := by
+        rcases Bool.and_eq_false_iff.mp hk.1 with h | h
+        · exact h
+        · simp at h; exact absurd h hkk
+      rw [upd_comm env hkk, ih hg.1 k this]
 
 theorem deriv_indep {n : Nat} {F : Mask} (hW : WFL n L) (id : Nat) (p : Env) :
     ∀ e, Good dv sz L n F e → ∀ k, fvMask L e k = false →
@@ -657,6 +681,19 @@ theorem deriv_indep {n : Nat} {F : Mask} (hW : WFL n L) (id : Nat) (p : Env) :
     cases parts with
     | nil => rfl
     | cons q rest => exact catDeriv_indep dv L id p v k (hne (by simp)) _ 0 hall env j
+  | scat i k' t e ih =>
+    intro hg k hk env j
+    simp only [fvMask, Bool.or_eq_false_iff, beq_eq_false_iff_ne] at hk
+    simp only [deriv, sumTo_eq]
+    apply sum_congr rfl; intro x _
+    rw [upd_ne env j (Ne.symm hk.2)]
+    by_cases hkk : k = k'
+    · subst hkk; rw [upd_same]
+    · have : fvMask L e k = false := by
+        rcases Bool.and_eq_false_iff.mp hk.1 with h | h
+        · exact h
+        · simp at h; exact absurd h hkk
+      rw [upd_comm env hkk, ih hg.1 k this]
 
 /-! ### the tape's aggregation step -/
 
@@ -1442,6 +1479,7 @@ def PtOK (id : Nat) (p : Env) : Expr → Prop
   | .prod _ e => PtOK id p e
   | .cat v parts => ∀ q, q ∈ parts → q.1 = id →
       p v < q.2 ∧ ∀ k, nameMask L id k = true → k ≠ v → p k < sz k
+  | .scat _ _ _ e => PtOK id p e
 
 /-- `adjoint_cat`: every part receives its slice; a leaf occurring several times among the parts
     accumulates all of them. -/
@@ -1487,6 +1525,120 @@ theorem sound_cat {n : Nat} {F : Mask} (hW : WFL n L) (id : Nat) (p : Env) (v : 
   exact sound_cat_occ dv sz L id (hW.hn id) p v o a _ (c1 (id, o.2) hb3) hV ha1
     ha2 (by simp only [Nat.zero_add] at hb2; omega) hpo.1 hpo.2
 
+omit [CommSemiring R] in
+/-- the message of a forward Scatter is admissible for its source -/
+theorem scatMsg_ok {n : Nat} (i k : Nat) (t : List Nat) (hik : i ≠ k) (hk : k < n) (a : NT R)
+    (han : ∀ j, a.mask j = true → j < n) (ha2 : ∀ j, a.mask j = false → Indep a.f j) :
+    (∀ j, (scatMsg i k t a).mask j = true → j < n) ∧
+    (∀ j, (scatMsg i k t a).mask j = false → Indep (scatMsg i k t a).f j) := by
+  constructor
+  · intro j hj
+    simp only [scatMsg, Bool.or_eq_true, Bool.and_eq_true, beq_iff_eq] at hj
+    rcases hj with h | h
+    · exact han j h.1
+    · rw [h.2]; exact hk
+  · intro j hj env x
+    simp only [scatMsg, Bool.or_eq_false_iff, Bool.and_eq_false_iff] at hj ⊢
+    by_cases hji : j = i
+    · subst hji
+      rw [upd_same, upd_ne env x (Ne.symm hik)]
+    · by_cases hjk : j = k
+      · subst hjk
+        have hAj : a.mask j = false := by
+          rcases hj.1 with h | h
+          · exact h
+          · simp at h; exact absurd h hji
+        have hAi : a.mask i = false := by
+          rcases hj.2 with h | h
+          · exact h
+          · simp at h
+        rw [ha2 i hAi _ _, ha2 j hAj env x, ha2 i hAi env _]
+      · have hAj : a.mask j = false := by
+          rcases hj.1 with h | h
+          · exact h
+          · simp at h; exact absurd h hji
+        rw [upd_ne env x (Ne.symm hjk), upd_comm env hji, ha2 j hAj]
+
+/-- forward `Scatter`: dest[i] = ⨁_{k : idx(k) = i} src(k); the source receives `out_adj` read at the
+    scattered positions (`adjoint_scatter` on HEAD) -/
+theorem sound_scat {n : Nat} {F : Mask} (hW : WFL n L) (hF : ∀ k, F k = true → k < n)
+    (id : Nat) (p : Env) (i k : Nat) (t : List Nat) (e : Expr)
+    (hg : Good dv sz L n F (.scat i k t e)) (ih : Sound dv sz L n F id p e) :
+    Sound dv sz L n F id p (.scat i k t e) := by
+  intro a ha1 ha2
+  have hfvs := fv_lt dv sz L hW _ hg
+  obtain ⟨hge, hvk, hvi, hFi, hFk, hik, hin, htab⟩ := hg
+  have hfv := fv_lt dv sz L hW _ hge
+  have hkn : k < n := hfv k hvk
+  have han : ∀ j, a.mask j = true → j < n := by
+    intro j hj
+    rcases ha1 j hj with h | h
+    · exact hfvs j h
+    · exact hF j h
+  have hAk : a.mask k = false := by
+    cases h : a.mask k
+    · rfl
+    · rcases ha1 k h with h' | h'
+      · simp only [fvMask, Bool.or_eq_true, Bool.and_eq_true, beq_iff_eq] at h'
+        rcases h' with h'' | h''
+        · simp at h''
+        · exact absurd h''.symm hik
+      · rw [hFk] at h'; exact absurd h' (by simp)
+  simp only [backward]
+  obtain ⟨m1, m2⟩ := scatMsg_ok i k t hik hkn a han ha2
+  obtain ⟨ok1, ok2⟩ := agg_ok dv sz F (fvMask L e) _ m1 m2
+  rw [ih _ ok1 ok2, agg_step dv sz F (fvMask L e) _ _ (deriv_indep dv sz L hW id p e hge)]
+  -- both sides: sum over M0 = (inputs of e without k) ∪ F of a sum over k resp. over i
+  have hmL : ∀ j, j < n →
+      ((fvMask L e j || F j) || ((scatMsg i k t a).mask j && !fvMask L e j && !F j)) =
+        (((fvMask L e j && j != k) || F j) || j == k) := by
+    intro j _
+    have h1 := ha1 j
+    simp only [fvMask, scatMsg] at h1 ⊢
+    by_cases hjk : j = k
+    · subst hjk; simp [hvk]
+    · by_cases hji : j = i
+      · subst hji
+        have : (j == k) = false := by simp [hjk]
+        simp [hvi, hFi, this]
+      · have e1 : (j == k) = false := by simp [hjk]
+        have e2 : (j == i) = false := by simp [hji]
+        have e3 : (j != k) = true := by simp [hjk]
+        have e4 : (j != i) = true := by simp [hji]
+        simp only [e1, e2, e3, e4] at h1 ⊢
+        cases hA : a.mask j <;> cases hv : fvMask L e j <;> cases hf : F j <;>
+          cases hAi : a.mask i <;> simp_all
+  have hmR : ∀ j, j < n →
+      (fvMask L (.scat i k t e) j || F j) = (((fvMask L e j && j != k) || F j) || j == i) := by
+    intro j _
+    simp only [fvMask]
+    cases fvMask L e j <;> cases (j != k) <;> cases F j <;> cases (j == i) <;> rfl
+  rw [sumM_congr_mask dv sz hmL, sumM_congr_mask dv sz hmR]
+  rw [← sumM_insert dv sz hkn (by simp [hFk]), ← sumM_insert dv sz hin (by simp [hvi, hFi])]
+  congr 1
+  funext env
+  simp only [sum1_apply, deriv, sumTo_eq, scatMsg, cs_zero]
+  -- left: Σ_k' a(i := idx k') · de(k');   right: Σ_i' a(i := i') · Σ_k' [idx k' = i'] de(k')
+  have hL : ∀ k', a.f (upd (upd env k k') i (tabAt t k')) = a.f (upd env i (tabAt t k')) := by
+    intro k'
+    rw [upd_comm env (Ne.symm hik), ha2 k hAk]
+  have hR : ∀ i' k', deriv (cs dv) sz L id p e (upd (upd env i i') k k') =
+      deriv (cs dv) sz L id p e (upd env k k') := by
+    intro i' k'
+    rw [upd_comm env hik, deriv_indep dv sz L hW id p e hge i hvi]
+  simp only [hR, upd_at, hL]
+  simp only [mul_sum]
+  rw [sum_comm]
+  apply sum_congr rfl
+  intro k' hk'
+  have hk'' : k' < sz k := mem_range.mp hk'
+  rw [sum_eq_single (tabAt t k')]
+  · rw [if_pos rfl]
+  · intro i' _ hne
+    rw [if_neg (fun h => hne h.symm), mul_zero]
+  · intro hnot
+    exact absurd (mem_range.mpr (htab k' hk'')) hnot
+
 /-- **Soundness of the reverse sweep (generalised incoming adjoint)**, for every node kind of the
     model: leaves read directly, through a substitution, or as parts of a `Cat`; ⊕; ⊗; sum- and
     product-reductions. -/
@@ -1514,6 +1666,8 @@ theorem adjoint_sound_gen {n : Nat} {F : Mask} (hW : WFL n L) (hF : ∀ k, F k =
     intro hg hpt; exact sound_prod dv sz L hW hF hdv id p v e hg (ih hg.1 hpt)
   | cat v parts =>
     intro hg hpt; exact sound_cat dv sz L hW id p v parts hg hpt
+  | scat i k t e ih =>
+    intro hg hpt; exact sound_scat dv sz L hW hF id p i k t e hg (ih hg.1 hpt)
 
 /-- **C11, model level.**
     For a root `e` satisfying `Good` (with `F` = the inputs of the root) and an index `p` of leaf `id`
@@ -1733,5 +1887,37 @@ example : Good ndiv wsz6 wL 2 noF (.sum 0 (.sum 1 (.cat 1 [(0, 3), (1, 3)]))) :=
   intro q hq
   simp only [List.mem_cons, List.not_mem_nil, or_false] at hq
   rcases hq with rfl | rfl <;> decide
+/-- leaves for the Scatter witness: `src` over variable 1 = [3,1,2], `w` over variable 2 = [10,20,30] -/
+def wL3 : Leaves ℕ where
+  names := fun id => if id = 0 then [1] else if id = 1 then [2] else []
+  T := fun id env =>
+    if id = 0 then (if env 1 = 0 then 3 else if env 1 = 1 then 1 else 2)
+    else if id = 1 then (if env 2 = 0 then 10 else if env 2 = 1 then 20 else 30)
+    else 0
+
+def wsz3 : Nat → Nat := fun _ => 3
+
+/-- `root = sum_2 Scatter(src; 1 ↦ 2 via idx = [2,0,1])[2] ⊗ w[2]`: the adjoint of `src[0]` is
+    `w[idx 0] = 30`, the derivative.  The rule before /repo 63a064e additionally reduced the message over
+    the source's own variable: the scalar `w[2]+w[0]+w[1] = 60` for every entry. -/
+theorem scatter_source_witness :
+    marginal (cs ndiv) wsz3 wL3 3 noF 0
+        (adjoint (cs ndiv) wsz3 wL3 3 (.sum 2 (.mul (.scat 2 1 [2, 0, 1] (.acc 0 [])) (.acc 1 []))) 0) z0 = 30 ∧
+      sumM (cs ndiv) wsz3 3 noF
+        (deriv (cs ndiv) wsz3 wL3 0 z0 (.sum 2 (.mul (.scat 2 1 [2, 0, 1] (.acc 0 [])) (.acc 1 [])))) z0 = 30 ∧
+      sumM (cs ndiv) wsz3 3 (fun j => j == 1)
+        (scatMsg 2 1 [2, 0, 1] (⟨fun j => j == 2, wL3.T 1⟩ : NT ℕ)).f z0 = 60 := by
+  decide
+
+/-- the hypotheses of `adjoint_sound` hold for that root (non-vacuity for the Scatter case) -/
+example : Good ndiv wsz3 wL3 3 noF (.sum 2 (.mul (.scat 2 1 [2, 0, 1] (.acc 0 [])) (.acc 1 []))) := by
+  refine ⟨⟨⟨Or.inl rfl, by decide, by decide, rfl, rfl, by decide, by decide, ?_⟩, Or.inl rfl⟩, by decide, rfl⟩
+  intro j hj
+  have : j < 3 := hj
+  match j, this with
+  | 0, _ => decide
+  | 1, _ => decide
+  | 2, _ => decide
+
 
 end FV.Props.C11
